@@ -1,9 +1,11 @@
 import DilithiumVerif.Impl.Sign
 import DilithiumVerif.Lemmas.Basic
 import DilithiumVerif.Lemmas.KeygenRel
+import DilithiumVerif.Lemmas.KeygenSpec
 /-
   C04 — Key generation is the specification's function of the seed.
-  (first instalment: structural theorems about the model's keypair; Spec.KeyGen refinement follows)
+  Structural theorems about the model's keypair, the algebraic key relation, and the refinement to the
+  specification's KeyGen (`KeygenSpec.IsKeyGen`: FIPS 204 Alg. 6 / Dilithium 3.1 Gen as a relation).
 -/
 namespace DV.C04
 open DV
@@ -43,5 +45,40 @@ theorem keygen_relation (p : Params) (hp : p ∈ allParams) (seed rho key : List
     (h : keygen_core p seed = .ok (rho, key, s1, s2, t1, t0)) :
     ∃ mat, matrix_expand p FUEL rho = .ok mat ∧ KeyFacts p mat s1 s2 t1 t0 :=
   keygen_facts p hp seed rho key s1 s2 t1 t0 h
+
+/-! ## Key generation is the specification's function of the seed
+
+`KeygenSpec.IsKeyGen p ξ pk sk` (Lemmas/KeygenSpec.lean) transcribes ML-DSA.KeyGen_internal / Dilithium Gen using only
+specification-level objects: SHAKE-128/256 as the FIPS 202 sponge function of the padded message (`XofSpec`, C12),
+RejNTTPoly / RejBoundedPoly as the first 256 accepted candidates of the XOF output stream (C17), t = Â∘NTT(s1) + s2 read
+at the 256 roots with coefficients in [0, q) and Power2Round ranges (C13, C15), pkEncode / skEncode as bit strings (C16),
+and the per-set domain separation ξ ‖ k ‖ l of FIPS 204. -/
+
+open DV.KeygenSpec in
+/-- **the keys `keypair` returns are the specification's** (all six sets, every 32-byte seed on which it returns) -/
+theorem keypair_meets_spec (p : Params) (hp : p ∈ allParams) (xi : List Nat) (tape : Tape) (pk sk : List Nat) (tape' : Tape)
+    (hk : keypair p (some xi) tape = .ok (pk, sk, tape')) : IsKeyGen p xi pk sk :=
+  KeygenSpec.keypair_meets_spec p hp xi tape pk sk tape' hk
+
+open DV.KeygenSpec in
+/-- **the specification determines both keys** -/
+theorem keygen_spec_functional (p : Params) (xi pk sk pk' sk' : List Nat)
+    (h : IsKeyGen p xi pk sk) (h' : IsKeyGen p xi pk' sk') : pk = pk' ∧ sk = sk' :=
+  IsKeyGen_functional p xi pk sk pk' sk' h h'
+
+open DV.KeygenSpec in
+/-- **Key generation is the specification's function of the seed**: any (pk′, sk′) that the specification relates to ξ
+    is, byte for byte, what `keypair` returned — seeded, or unseeded on the 32 bytes it drew. -/
+theorem keypair_is_spec_function (p : Params) (hp : p ∈ allParams) (xi : List Nat) (tape : Tape) (pk sk : List Nat) (tape' : Tape)
+    (hk : keypair p (some xi) tape = .ok (pk, sk, tape')) (pk' sk' : List Nat) (hs : IsKeyGen p xi pk' sk') :
+    pk' = pk ∧ sk' = sk :=
+  IsKeyGen_functional p xi pk' sk' pk sk hs (KeygenSpec.keypair_meets_spec p hp xi tape pk sk tape' hk)
+
+open DV.KeygenSpec in
+theorem keypair_unseeded_is_spec_function (p : Params) (hp : p ∈ allParams) (tape : Tape) (h32 : SEEDBYTES ≤ tape.length)
+    (pk sk : List Nat) (tape' : Tape) (hk : keypair p none tape = .ok (pk, sk, tape')) :
+    IsKeyGen p (tape.take SEEDBYTES) pk sk ∧ tape' = tape.drop SEEDBYTES := by
+  rw [keypair_unseeded p tape h32] at hk
+  exact ⟨KeygenSpec.keypair_meets_spec p hp _ _ pk sk tape' hk, (keypair_seeded_tape p _ _ pk sk tape' hk).1⟩
 
 end DV.C04
